@@ -248,6 +248,14 @@ def run(ctx):
     sm = HC.methods.get("sum")
     ctx.saw(sm)
     rets = [U(n.value) for n in ast.walk(sm.node) if isinstance(n, ast.Return)]
+    csum = m.cls("HistogramCollection").methods["sum"]
+    pols = {}
+    for p_ in function_paths(csum.node):
+        cs_ = dict((U(s_[1]), s_[2]) for s_ in p_ if s_[0] == "cond")
+        if "self.histograms" in cs_ and end_kind(p_) == "return":
+            pols[cs_["self.histograms"]] = "sum(self.histograms)" in U(p_[-1][2].value)
+    ctx.check(pols == {True: True, False: False}, "C05.d", "HistogramCollection.sum:empty-only", "the zero histogram is returned for an empty collection only",
+              f"`sum(self.histograms)` returned per `self.histograms` decision: {pols}", csum.where)
     ctx.check(any("sum(self.histograms)" in r for r in rets), "C05.d", "HistogramCollection.sum", "sum over all members",
               f"collection sum returns {rets}", sm.where)
     rd = m.func("compat.dask", "_run_dask")
